@@ -10,12 +10,10 @@ import (
 
 	"github.com/jcmturner/gokrb5/v8/client"
 	"github.com/jcmturner/gokrb5/v8/config"
-	"github.com/jcmturner/gokrb5/v8/keytab"
 	"github.com/jcmturner/gokrb5/v8/krberror"
 	"github.com/jcmturner/gokrb5/v8/messages"
 
 	"verif/props/pcommon"
-	"verif/ref/accept"
 	"verif/ref/kcrypto"
 	"verif/ref/kmsg"
 	"verif/simkdc"
@@ -37,19 +35,22 @@ var remoteSvc = kmsg.N(2, "HTTP", "svc.remote.other")
 
 // world is one simulated KDC with its endpoint, owned by one worker.
 type world struct {
-	k     *simkdc.KDC
-	ep    *simkdc.Endpoint
-	epTB  *simkdc.Endpoint // UDP answers response-too-big, TCP answers
-	epRF  *simkdc.Endpoint // UDP refuses, TCP answers
-	now   atomic.Int64
-	rnd   *vh.Rand
-	ktabs map[int32]*keytab.Keytab
-	via   string // which endpoint the clients of the current case are configured with ("" = UDP and TCP answer)
-	na    bool   // set by a perturbation that found nothing to perturb in this reply (e.g. no addresses were requested)
+	k    *simkdc.KDC
+	ep   *simkdc.Endpoint
+	epTB *simkdc.Endpoint // UDP answers response-too-big, TCP answers
+	epRF *simkdc.Endpoint // UDP refuses, TCP answers
+	now  atomic.Int64
+	rnd  *vh.Rand
+	via  string     // which endpoint the clients of the current case are configured with ("" = UDP and TCP answer)
+	na   bool       // set by a perturbation that found nothing to perturb in this reply (e.g. no addresses were requested)
+	ckt  caseKeytab // the keytab of the keytab clients of the current case
+	// set by a size perturbation: the encoded size of the reply it shaped and the nonce of the request it answers
+	sentSize  int
+	sentNonce uint32
 }
 
 func newWorld(id int) (*world, error) {
-	w := &world{rnd: vh.NewRand("c09world", id), ktabs: map[int32]*keytab.Keytab{}}
+	w := &world{rnd: vh.NewRand("c09world", id)}
 	w.k = simkdc.New(func() time.Time { return time.Unix(0, w.now.Load()).UTC() }, w.rnd.Bytes)
 	w.k.Skew = skew
 	w.k.AddRealm(realm)
@@ -65,12 +66,9 @@ func newWorld(id int) (*world, error) {
 			return nil, err
 		}
 		// keytab clients have two name components, so that a reply can carry the same text cut differently
+		// (their keytabs are built per case: prepareKeytab)
 		p := w.k.AddService(realm, kmsg.N(1, fmt.Sprintf("kt%d", et), "batch"), et)
-		kt := keytab.New()
-		if err := kt.Unmarshal(accept.KeytabV2([]accept.KeytabEntry{{Realm: realm, Name: p.Name, Kvno: 1, Etype: et, Key: p.Keys[0].Key, Timestamp: 1}})); err != nil {
-			return nil, err
-		}
-		w.ktabs[et] = kt
+		p.Keys[0].Kvno = ktKvno
 	}
 	ep, err := simkdc.NewEndpoint(fmt.Sprintf("kdc-w%d", id), w.k, simkdc.Answers, simkdc.Answers)
 	if err != nil {
@@ -105,6 +103,9 @@ type pert struct {
 	apply  func(w *world, c cfgKey, r *simkdc.Reply, rnd *vh.Rand)
 	skipIf func(c cfgKey) bool
 	stale  bool
+	class  string // if set: what the fingerprint names instead of `name` (names that carry PRNG-drawn numbers)
+	// observeOnly: a KRB-ERROR case whose outcome is counted, not judged
+	observeOnly bool
 }
 
 func otherAddrs() []kmsg.Addr { return []kmsg.Addr{{Type: 2, Data: []byte{203, 0, 113, 77}}} }
@@ -124,6 +125,7 @@ func catalogue() []pert {
 		if ex == "AS" {
 			add("enc-usage-8-instead-of-3", "reject", func(w *world, c cfgKey, r *simkdc.Reply, rnd *vh.Rand) { r.EncUsage = 8 }, rc4)
 			add("enc-usage-1", "reject", func(w *world, c cfgKey, r *simkdc.Reply, rnd *vh.Rand) { r.EncUsage = 1 }, nil)
+			keytabPerts(add)
 		} else {
 			add("enc-usage-3-instead-of-8", "reject", func(w *world, c cfgKey, r *simkdc.Reply, rnd *vh.Rand) { r.EncUsage = 3 }, rc4)
 			add("enc-usage-2", "reject", func(w *world, c cfgKey, r *simkdc.Reply, rnd *vh.Rand) { r.EncUsage = 2 }, nil)
@@ -326,7 +328,7 @@ func (w *world) newClient(c cfgKey) (*client.Client, error) {
 	if c.kind == "pw" {
 		return client.NewWithPassword(name, realm, p.Password, cfg, client.DisablePAFXFAST(true)), nil
 	}
-	return client.NewWithKeytab(name, realm, w.ktabs[c.et], cfg, client.DisablePAFXFAST(true)), nil
+	return client.NewWithKeytab(name, realm, w.ckt.kt, cfg, client.DisablePAFXFAST(true)), nil
 }
 
 func TestProp(t *testing.T) {
@@ -339,9 +341,12 @@ func TestProp(t *testing.T) {
 	r.SetRule("a gokrb5 client (password and keytab credentials x six etypes x three pre-authentication policies x noaddresses) performs AS and TGS exchanges over loopback UDP against a simulated KDC built on the reference encoder/crypto, under a virtual clock; " +
 		"the KDC produces the correct reply and applies ONE named perturbation (tagged rejecting / neutral / observe-only from RFC 4120 3.1.5, 3.3.4 and the statement): other key, other key usage, bit flips and truncations of the ciphertext, nonce, cname, crealm, sname, srealm, ticket realm, " +
 		"addresses, authtime/starttime at and beyond the skew, wrong message type, stale reply; the nonce perturbations include values equal to the request nonce only modulo 2^32 (INTEGERs outside UInt32), the usage perturbations the neighbouring numbers 3/8/9, 7, 11, 12 and distant ones; " +
-		"after a rejected reply the KDC turns honest and the SAME client is asked again (two-step history): neither the ticket cache, nor the next result for that service, nor the TGT of a later TGS request may come from the rejected reply; plus one flipped bit per ciphertext byte for one configuration, plus every KRB-ERROR code 1..93 and an unknown one. distinct = (config, exchange, perturbation); all non-trivial")
+		"after a rejected reply the KDC turns honest and the SAME client is asked again (two-step history): neither the ticket cache, nor the next result for that service, nor the TGT of a later TGS request may come from the rejected reply; plus one flipped bit per ciphertext byte for one configuration, plus every KRB-ERROR code 1..93 and an unknown one; " +
+		"the keytabs of the keytab clients hold, in most cases, more than the client's key (the same principal name in other realms with the same kvno and etype, older and newer; other names; the previous key version; another etype; PRNG order): every verdict stays, and an AS reply sealed under the key of the same name in another realm or under the previous key labelled current is rejected; " +
+		"the correct reply of each exchange and KRB-ERRORs of PRNG-drawn codes are also sent with PRNG-drawn sizes from 1400 bytes up to the largest datagram a KDC sends (4096 bytes, always included), grown by data the client does not interpret (ticket authorization data, unknown pa-data, unknown encrypted-pa-data; e-text, e-data), over UDP: accepted, resp. the code surfaces. distinct = (config, exchange, perturbation); all non-trivial")
 	r.Assume("simulated KDC (simkdc over ref/kmsg, ref/kcrypto) is RFC 4120 conformant for the exchanges driven; unperturbed replies must be accepted (checked in every configuration)")
 	r.Note("observe-only: outer ticket realm/sname of an AS reply, sname inside a TGS reply's encrypted part, caddr in an AS reply when the request carried none, KRB-ERROR 68 (the client follows the referral to the error's crealm)")
+	r.Note("observe-only: replies longer than 4096 bytes over UDP (a KDC answers KRB_ERR_RESPONSE_TOO_BIG instead: MIT kdc_max_dgram_reply_size), an AS reply sealed under the client's previous key version and labelled with that version")
 	r.Note("RFC 4757 aliases key usages 3, 8 and 9 for rc4-hmac: the usage perturbations among 3, 8 and 9 are skipped for etype 23")
 	r.Note("two-step histories judge only by the session keys the rejected replies carried (fresh random values of the simulated KDC); a failing or otherwise unexplained second request is counted (observe_followup_*), not judged")
 
@@ -439,6 +444,32 @@ func TestProp(t *testing.T) {
 		jobs = append(jobs, job{c: c, p: &pert{name: "krb-error-after-preauth", ex: "AS", kind: "error"}, byt: -1, code: cd})
 	}
 
+	// replies of every size a KDC sends in one datagram, over UDP: the correct reply of each exchange grown by data the client
+	// does not interpret, and KRB-ERRORs with a long e-text / e-data
+	nSize, nBeyond := 24, 3
+	if vh.Thorough() {
+		nSize, nBeyond = 160, 16
+	}
+	for _, ex := range []string{"AS", "TGS", exReferral, exAfterReferral} {
+		for i, target := range sizeTargets("ticket/"+ex, nSize, nBeyond) {
+			pr := vh.NewRand("c09-reply-size-case", ex, i)
+			c := cfgs[pr.Intn(len(cfgs))]
+			jobs = append(jobs, job{c: c, p: paddedPert(ex, target, padWhere[pr.Intn(len(padWhere))]), byt: -1})
+		}
+	}
+	for _, ex := range []string{"AS", "TGS"} {
+		for i, target := range sizeTargets("error/"+ex, nSize, nBeyond) {
+			pr := vh.NewRand("c09-error-size-case", ex, i)
+			c := vh.Pick(pr, cfgKey{"kt", 18, "none", true}, cfgKey{"pw", 17, "info2", true}, cfgKey{"kt", 17, "info2", false}, cfgKey{"pw", 18, "none", false})
+			code := int32(1 + pr.Intn(93))
+			where := padWhereErr[pr.Intn(len(padWhereErr))]
+			if code == 24 || code == 25 {
+				where = "e-text" // the e-data of these two codes is the KDC's pre-authentication hint list
+			}
+			jobs = append(jobs, job{c: c, p: paddedErrorPert(ex, target, where), byt: -1, code: code})
+		}
+	}
+
 	nw := 16
 	type wjob struct{ idx int }
 	ch := make(chan int, 64)
@@ -489,6 +520,14 @@ func TestProp(t *testing.T) {
 	r.Require("followup_cache_clean_after_rejected_tgs_reply", 1200)
 	r.Require("followup_fresh_result_after_rejected_TGS_reply", 1200)
 	r.Require("followup_fresh_result_after_rejected_AS_reply", 400)
+	r.Require("base_accepted_with_crowded_keytab", 70)
+	r.Require("base_accepted_with_newer_same_name_entry_of_other_realm", 50)
+	r.Require("reply_under_key_of_same_name_in_other_realm_rejected", 30)
+	r.Require("padded_reply_over_udp_accepted", 60)
+	r.Require("padded_reply_over_udp_accepted_beyond_1500_bytes", 40)
+	r.Require("padded_reply_of_largest_size_over_udp_accepted", 4)
+	r.Require("padded_krb_error_over_udp_code_surfaced", 30)
+	r.Require("padded_krb_error_over_udp_code_surfaced_beyond_1500_bytes", 20)
 }
 
 func runCase(t *testing.T, r *vh.Run, w *world, ck string, c cfgKey, p *pert, byt int, code int32) {
@@ -508,6 +547,12 @@ func runCase(t *testing.T, r *vh.Run, w *world, ck string, c cfgKey, p *pert, by
 		w.k.Perturb, w.k.ForceError, w.k.ForceErrorWhen = nil, 0, nil
 		w.na = false
 		w.via = ""
+		w.sentSize, w.sentNonce = 0, 0
+		if err := w.prepareKeytab(c, p.name, ck); err != nil {
+			r.Inconclusive("keytab of the case: " + err.Error())
+			skipped = true
+			return
+		}
 		if i := strings.Index(p.name, "-over-"); i > 0 {
 			w.via = p.name[i+len("-over-"):]
 		}
@@ -551,6 +596,15 @@ func runCase(t *testing.T, r *vh.Run, w *world, ck string, c cfgKey, p *pert, by
 		pnc, pv, pw = vh.Guard(func() {
 			defer pcommon.Teardown(cl)
 			if p.kind == "error" {
+				if p.apply != nil {
+					// the forced KRB-ERROR is shaped before it is sent
+					w.k.Perturb = func(rp *simkdc.Reply) {
+						if rp.Error != nil && rp.Error.Code == code && w.k.ForceError == code {
+							applied++
+							p.apply(w, c, rp, rnd)
+						}
+					}
+				}
 				if p.ex == "AS" {
 					w.k.ForceError = code
 					if p.name == "krb-error-after-preauth" {
@@ -643,6 +697,15 @@ func runCase(t *testing.T, r *vh.Run, w *world, ck string, c cfgKey, p *pert, by
 	}
 	r.Eval(ck, true)
 	d := map[string]any{"case": ck, "config": c.String(), "exchange": p.ex, "perturbation": p.name, "login_err": fmt.Sprint(loginErr), "tgs_err": fmt.Sprint(tgsErr), "perturbation_applied": applied}
+	if c.kind == "kt" {
+		d["keytab_entries"], d["keytab_newer_entries_of_same_name_in_other_realms"] = w.ckt.entries, w.ckt.foreignN
+	}
+	tr := ""
+	if w.sentSize > 0 {
+		// a size perturbation shaped a reply: how long it was and how the request it answers had arrived
+		tr = transportOf(w, w.sentNonce)
+		d["reply_bytes"], d["reply_transport"] = w.sentSize, tr
+	}
 	if pnc {
 		r.Violation(fmt.Sprintf("C09|panic|%s|%s", pw, vh.PanicClass(pv)), "client panicked while processing a KDC reply: "+pv, d)
 		return
@@ -664,15 +727,41 @@ func runCase(t *testing.T, r *vh.Run, w *world, ck string, c cfgKey, p *pert, by
 			r.Inc("observe_krb_error_68")
 			return
 		}
+		if p.apply != nil && applied == 0 {
+			r.Inconclusive("the forced KRB-ERROR was never sent in " + ck)
+			return
+		}
+		if p.observeOnly {
+			if carriesCode(exErr, code) {
+				r.Inc("observe_" + p.class + "_beyond_the_largest_kdc_datagram_code_surfaced")
+			} else {
+				r.Inc("observe_" + p.class + "_beyond_the_largest_kdc_datagram_code_lost")
+			}
+			return
+		}
 		if p.name == "krb-error-after-preauth" && applied == 0 {
 			r.Inconclusive("the forced KRB-ERROR never answered a pre-authenticated request in " + ck)
 			return
 		}
 		if !carriesCode(exErr, code) {
-			r.Violation(fmt.Sprintf("C09|krb-error-code-lost|%s", p.ex), fmt.Sprintf("KRB-ERROR %d reaches the caller as an error from which the code cannot be recovered: %v", code, exErr), d)
+			fp := fmt.Sprintf("C09|krb-error-code-lost|%s", p.ex)
+			if p.class != "" {
+				fp += "|" + p.class
+			}
+			r.Violation(fp, fmt.Sprintf("KRB-ERROR %d reaches the caller as an error from which the code cannot be recovered: %v", code, exErr), d)
 			return
 		}
 		r.Inc("krb_error_code_surfaced")
+		if p.class != "" {
+			if tr == "udp" {
+				r.Inc("padded_krb_error_over_udp_code_surfaced")
+				if w.sentSize > 1500 {
+					r.Inc("padded_krb_error_over_udp_code_surfaced_beyond_1500_bytes")
+				}
+			} else {
+				r.Inc("observe_padded_krb_error_over_" + tr)
+			}
+		}
 		if w.via != "" {
 			r.Inc("krb_error_over_tcp_fallback_code_surfaced")
 		}
@@ -689,10 +778,32 @@ func runCase(t *testing.T, r *vh.Run, w *world, ck string, c cfgKey, p *pert, by
 	case "neutral":
 		if exErr != nil {
 			fp := "C09|rejected-valid|" + p.ex + "|" + p.name
+			if p.class != "" {
+				fp = "C09|rejected-valid|" + p.ex + "|" + p.class
+			}
 			r.Violation(fp, "reply that answers the request was rejected: "+exErr.Error(), d)
 			return
 		}
 		r.Inc("neutral_accepted")
+		if w.sentSize > 0 {
+			if tr == "udp" {
+				r.Inc("padded_reply_over_udp_accepted")
+				if w.sentSize > 1500 {
+					r.Inc("padded_reply_over_udp_accepted_beyond_1500_bytes")
+				}
+				if w.sentSize == udpReplyMax {
+					r.Inc("padded_reply_of_largest_size_over_udp_accepted")
+				}
+			} else {
+				r.Inc("observe_padded_reply_over_" + tr)
+			}
+		}
+		if p.name == "none" && c.kind == "kt" && w.ckt.crowded {
+			r.Inc("base_accepted_with_crowded_keytab")
+			if w.ckt.foreignN > 0 {
+				r.Inc("base_accepted_with_newer_same_name_entry_of_other_realm")
+			}
+		}
 		if p.name == "none" {
 			r.Inc("base_accepted_" + p.ex)
 			r.SampleKind("base-"+p.ex, 1, d)
@@ -713,6 +824,9 @@ func runCase(t *testing.T, r *vh.Run, w *world, ck string, c cfgKey, p *pert, by
 		if strings.HasPrefix(p.name, "enc-usage-") {
 			r.Inc("usage_perturbations_rejected")
 		}
+		if p.name == "enc-key-of-same-name-in-other-realm" {
+			r.Inc("reply_under_key_of_same_name_in_other_realm_rejected")
+		}
 		fu.judge(r, p, d)
 		if byt >= 0 {
 			r.Inc("cipher_byte_flips_rejected")
@@ -722,10 +836,14 @@ func runCase(t *testing.T, r *vh.Run, w *world, ck string, c cfgKey, p *pert, by
 		}
 		r.SampleKind("rej-"+p.ex+"-"+p.name, 1, d)
 	case "observe":
+		nm := p.name
+		if p.class != "" {
+			nm = p.class + "_beyond_the_largest_kdc_datagram"
+		}
 		if exErr == nil {
-			r.Inc("observe_" + p.ex + "_" + p.name + "_accepted")
+			r.Inc("observe_" + p.ex + "_" + nm + "_accepted")
 		} else {
-			r.Inc("observe_" + p.ex + "_" + p.name + "_rejected")
+			r.Inc("observe_" + p.ex + "_" + nm + "_rejected")
 		}
 	}
 }
